@@ -108,6 +108,8 @@ class SynthWorld:
         self.flaky_fail_at = None  # deterministic single fault: index of the Flaky.generate call that fails
         self.flaky_calls = 0
         self.random = shared_random or SimRandom(ctx, self.policy, chooser=rchooser)
+        if getattr(self.random, "op_cap", 0) is None:
+            self.random.op_cap = 25000  # draws per operation: bounds the size of generated programs
         self.grammar = None
         self.rep = None
         self.decider = None
@@ -148,6 +150,8 @@ class SynthWorld:
         """run fn(); classify what escapes"""
         d0 = self.random.draws if hasattr(self.random, "draws") else 0
         reset_gene_read_cap(self.gene_read_cap)
+        if hasattr(self.random, "reset_cap"):
+            self.random.reset_cap()
         try:
             out = fn()
             res.ok = True
